@@ -13,14 +13,14 @@ SIM = os.path.join(ROOT, "sim")
 FLAGS = "-Zmiri-disable-stacked-borrows -Zmiri-permissive-provenance -Zmiri-ignore-leaks"
 
 def native(chunk_seed, count):
-    p = subprocess.run([os.path.join(SIM, "target", "release", "c16"), "--digest", str(chunk_seed), str(count)],
+    p = subprocess.run([os.path.join(SIM, "target", "release", "c16"), "--digest", str(chunk_seed), str(count), "small"],
                        capture_output=True, text=True, env=dict(os.environ, VERIF_ROOT=ROOT))
     return [l for l in p.stdout.splitlines() if l.startswith("D ")]
 
 def under_miri(miri_seed, chunk_seed, count):
     env = dict(os.environ, CARGO_NET_OFFLINE="true", MIRIFLAGS=f"-Zmiri-seed={miri_seed} {FLAGS}")
     p = subprocess.run(["cargo", "+nightly", "miri", "run", "--offline", "-q", "-p", "checks", "--bin", "c16", "--",
-                        "--digest", str(chunk_seed), str(count)], cwd=SIM, env=env, capture_output=True, text=True, timeout=3600)
+                        "--digest", str(chunk_seed), str(count), "small"], cwd=SIM, env=env, capture_output=True, text=True, timeout=3600)
     return p.returncode, [l for l in p.stdout.splitlines() if l.startswith("D ")], p.stderr
 
 def run_tier(tier):
